@@ -241,7 +241,14 @@ func (mc *Machine) ActCreateIndex(t *rapid.T, mirrors ...*column.Collection) {
 		t.Skip("enough indexes")
 	}
 	mc.ixSeq++
-	ix, ok := genIndexSpec(t, mc.M, fmt.Sprintf("ix%d", mc.ixSeq))
+	name := fmt.Sprintf("ix%d", mc.ixSeq)
+	if len(mc.freeIxNames) > 0 && rapid.Bool().Draw(t, "reuse-dropped-name") {
+		// an index that was dropped comes back under its old name, possibly on another column / with another rule
+		name = mc.freeIxNames[len(mc.freeIxNames)-1]
+		mc.freeIxNames = mc.freeIxNames[:len(mc.freeIxNames)-1]
+		mc.flag("index-name-re-used")
+	}
+	ix, ok := genIndexSpec(t, mc.M, name)
 	if !ok {
 		t.Skip("no column")
 	}
@@ -273,6 +280,7 @@ func (mc *Machine) ActDropIndex(t *rapid.T, mirrors ...*column.Collection) {
 		}
 	}
 	mc.Indexes = append(mc.Indexes[:i], mc.Indexes[i+1:]...)
+	mc.freeIxNames = append(mc.freeIxNames, ix.Name)
 	// the name must be gone as a filter: With(missing) selects nothing
 	n := -1
 	mc.C.Query(func(txn *column.Txn) error { n = txn.With(ix.Name).Count(); return nil })
